@@ -85,6 +85,8 @@ fn alphabet(cfg: &Cfg, with_partial: bool) -> Vec<Op> {
     }
     if cfg.kind.is_sinc() {
         a.push(Op::C((cfg.chunk / 2).max(1)));
+        // and back to the constructor's size (shrink, process, grow, process)
+        a.push(Op::C(cfg.chunk));
     }
     a.push(Op::Z);
     if with_partial {
@@ -274,6 +276,59 @@ fn c11_one(acc: &mut Acc, cfg: &Cfg, depth: usize, journal: Option<&JournalFile>
                     }
                     if bad {
                         break;
+                    }
+                }
+            }
+        }
+    }
+    // (c) one constant mask per stream: mask A up to a reset, mask B (all channels given
+    // explicitly, or the complement of A) after it - what the first stream's mask left behind
+    // must not show in the second stream
+    if n >= 2 {
+        let all = (1u32 << n) - 1;
+        for h in &hs_m {
+            let Some(z) = h.iter().position(|o| *o == Op::Z) else { continue };
+            if !h[..z].iter().any(|o| *o == Op::P) || !h[z + 1..].iter().any(|o| matches!(o, Op::P | Op::PP(_))) {
+                continue;
+            }
+            let unmasked = trace::<f64>(cfg, Signal::Noise, h)?;
+            for mask_a in masks_for(n) {
+                if mask_a == all {
+                    continue;
+                }
+                for mask_b in [all, all & !mask_a] {
+                    let hm: Vec<Op> = h
+                        .iter()
+                        .enumerate()
+                        .map(|(i, op)| {
+                            let m = if i < z { mask_a } else { mask_b };
+                            match *op {
+                                Op::P => Op::PM(m, false),
+                                Op::PP(Some(k)) => Op::PPM(m, k, false),
+                                o => o,
+                            }
+                        })
+                        .collect();
+                    if let Some(j) = journal {
+                        j.write(&cfg.to_json(), &history_text(&hm));
+                    }
+                    let masked = trace::<f64>(cfg, Signal::Noise, &hm)?;
+                    acc.evals += 1;
+                    acc.steps += masked.len() as u64;
+                    for i in z + 1..unmasked.len().min(masked.len()) {
+                        let (u, m) = (&unmasked[i], &masked[i]);
+                        let mut bad = u.0 != m.0 || u.2 != m.2;
+                        if matches!(hm[i], Op::PM(_, _) | Op::PPM(_, _, _)) {
+                            for c in 0..n {
+                                if (mask_b >> c) & 1 == 1 && u.1.get(c) != m.1.get(c) {
+                                    bad = true;
+                                }
+                            }
+                        }
+                        if bad {
+                            acc.fail("C11", cfg, &hm[..=i], "mask-of-earlier-stream-shows-after-reset", format!("step {}: a stream under mask {:b} that follows reset() differs (results, counts or active channels) from the same stream on a resampler whose earlier stream ran without a mask (earlier mask {:b})", i, mask_b, mask_a));
+                            break;
+                        }
                     }
                 }
             }
@@ -729,7 +784,7 @@ impl Check for C16 {
         }
         c16_boxed::<f64>(&mut acc, &cfg, depth + 1)?;
         c16_boxed::<f32>(&mut acc, &cfg, depth)?;
-        acc.samples.push(json!({"cfg": cfg.short(), "states": "all histories of length 0..depth over {P,R(max,ramp),R(1/max),C(max/2),Z,PP(1)}", "per_state": "process() vs process_into_buffer under all masks; partial Some(x) for every length 1..next-1, next, next+3 and None vs zero-padded chunk (2 masks); process_partial; 3 flushes"}));
+        acc.samples.push(json!({"cfg": cfg.short(), "states": "all histories of length 0..depth over {P,R(max,ramp),R(1/max),C(max/2),C(max),Z,PP(1)}", "per_state": "process() vs process_into_buffer under all masks; partial Some(x) for every length 1..next-1, next, next+3 and None vs zero-padded chunk (2 masks); process_partial; 3 flushes"}));
         Ok(acc.json(cfg.short()))
     }
     fn finalize(&self, tier: Tier, _items: &[Value], cov: &mut Map<String, Value>) {
